@@ -22,12 +22,12 @@ def max_allele(gts):
     m = 0
     for g in gts:
         for a in re.split(r"[/|]", g):
-            if a != "." and a != "":
+            if a.isdigit() and len(a) < 4:
                 m = max(m, int(a))
     return m
 
 
-def render_vcf(cols, records, extra_fields=False, contigs=None, positions=None, raw_lines=None):
+def render_vcf(cols, records, extra_fields=False, contigs=None, positions=None, raw_lines=None, dot_fields=False):
     """records: list of lists of GT strings (one per column). raw_lines: {index: raw text line} replaces a record by
     arbitrary (corrupt) text."""
     out = list(HEADER_LINES)
@@ -43,7 +43,8 @@ def render_vcf(cols, records, extra_fields=False, contigs=None, positions=None, 
         alt = ",".join(alts[:m]) if m > 0 else "."
         if extra_fields and i % 2 == 0:
             fmt = "GT:DP:GQ"
-            samples = [g + ":%d:%d" % (10 + j, 30 + j) if g != "." else "." for j, g in enumerate(gts)]
+            # a sample whose GT is the missing value: the whole sample as '.', or (dot_fields) '.' next to the other values
+            samples = [g + ":%d:%d" % (10 + j, 30 + j) if (g != "." or dot_fields) else "." for j, g in enumerate(gts)]
             info = "DP=%d" % (50 + i)
         else:
             fmt = "GT"
@@ -133,3 +134,95 @@ def vcf_to_bcf(vcf_bytes, tag, mode="raw"):
         except OSError:
             pass
     return data
+
+
+# ---------------------------------------------------------------------------------------------------------------
+# BCF 2.2 written by hand, the way htslib/bcftools lay a record out (so that records noodles' own writer refuses or
+# mis-encodes - a whole-field '.', mixed ploidy within a record - can be supplied in the binary container too)
+def _typed_int(v):
+    if -120 <= v <= 127:
+        return bytes([0x11]) + struct.pack("<b", v)
+    if -32000 <= v <= 32767:
+        return bytes([0x12]) + struct.pack("<h", v)
+    return bytes([0x13]) + struct.pack("<i", v)
+
+
+def _typed_desc(n, ty):
+    return bytes([(n << 4) | ty]) if n < 15 else bytes([0xF0 | ty]) + _typed_int(n)
+
+
+def _typed_str(s):
+    b = s.encode()
+    return _typed_desc(len(b), 7) + b
+
+
+def _gt_bytes(gt, width):
+    """htslib: allele k -> (k+1)<<1 | phased, '.' -> 0 | phased; shorter genotypes padded with end-of-vector (0x81)"""
+    if gt == ".":
+        vals = [0]
+    else:
+        vals, phased = [], 0
+        for tok in re.split(r"([/|])", gt):
+            if tok == "/":
+                phased = 0
+            elif tok == "|":
+                phased = 1
+            else:
+                vals.append(((0 if tok == "." else int(tok) + 1) << 1) | phased)
+    return bytes(vals + [0x81] * (width - len(vals)))
+
+
+def gt_vector(gt, width):
+    return _gt_bytes(gt, width)
+
+
+def bcf_encode_hts(vcf_bytes, gt_override=None):
+    """VCF text as produced by render_vcf -> uncompressed BCF bytes (None if a line is not of the supported form).
+    gt_override: {record index: [int8 vector (bytes) per sample, all of one width]} replaces the GT vectors of a record."""
+    lines = vcf_bytes.decode().split("\n")
+    hdr = [l for l in lines if l.startswith("#")]
+    recs = [l for l in lines if l and not l.startswith("#")]
+    text = ("\n".join(hdr) + "\n").encode() + b"\x00"
+    out = [b"BCF\x02\x02", struct.pack("<I", len(text)), text]
+    strmap, ctgmap = {"PASS": 0}, {}
+    for l in hdr:
+        m = re.match(r"##(FILTER|INFO|FORMAT)=<ID=([^,>]+)", l)
+        if m and m.group(2) not in strmap:
+            strmap[m.group(2)] = len(strmap)
+        m = re.match(r"##contig=<ID=([^,>]+)", l)
+        if m:
+            ctgmap[m.group(1)] = len(ctgmap)
+    for ri, l in enumerate(recs):
+        f = l.split("\t")
+        if len(f) < 9 or f[0] not in ctgmap:
+            return None
+        chrom, pos, vid, ref, alt, qual, filt, info, fmt = f[:9]
+        samples = f[9:]
+        alleles = [ref] + ([] if alt == "." else alt.split(","))
+        infos = [] if info == "." else [kv.split("=") for kv in info.split(";")]
+        fmts = fmt.split(":")
+        shared = struct.pack("<iii", ctgmap[chrom], int(pos) - 1, len(ref))
+        shared += struct.pack("<I", 0x7F800001) if qual == "." else struct.pack("<f", float(qual))
+        shared += struct.pack("<I", (len(alleles) << 16) | len(infos))
+        shared += struct.pack("<I", (len(fmts) << 24) | len(samples))
+        shared += _typed_str("" if vid == "." else vid)
+        for a in alleles:
+            shared += _typed_str(a)
+        shared += bytes([0x00]) if filt == "." else _typed_desc(1, 1) + struct.pack("<b", strmap[filt])
+        for k, v in infos:
+            shared += _typed_int(strmap[k]) + _typed_int(int(v))
+        indiv = b""
+        cols = [s.split(":") for s in samples]
+        for j, key in enumerate(fmts):
+            indiv += _typed_int(strmap[key])
+            vals = [c[j] if j < len(c) else "." for c in cols]
+            if key == "GT" and gt_override and ri in gt_override:
+                vecs = gt_override[ri]
+                indiv += _typed_desc(len(vecs[0]), 1) + b"".join(vecs)
+            elif key == "GT":
+                width = max([1] + [len(re.split(r"[/|]", v)) for v in vals])
+                indiv += _typed_desc(width, 1) + b"".join(_gt_bytes(v, width) for v in vals)
+            else:
+                indiv += _typed_desc(1, 1) + bytes((0x80 if v == "." else int(v) & 0xFF) for v in vals)
+        out += [struct.pack("<II", len(shared), len(indiv)), shared, indiv]
+    return b"".join(out)
